@@ -9,6 +9,8 @@ import (
 	"fmt"
 	"hash/fnv"
 	"os"
+	"runtime"
+	"runtime/pprof"
 	"sort"
 	"strings"
 	"testing"
@@ -88,6 +90,7 @@ type Response struct {
 	WallMs       int64           `json:"wall_ms"`
 	Scenarios    []string        `json:"scenarios,omitempty"`
 	RunHashes    []uint64        `json:"run_hashes,omitempty"` // per run: mix(trace hash, steps, outcome, violations)
+	ClassRuns    map[string]int  `json:"class_runs,omitempty"` // violating runs per violation class
 }
 
 func mix(a ...uint64) uint64 {
@@ -327,6 +330,18 @@ func TestSim(t *testing.T) {
 		doRuns(t, &req, resp, start)
 	}
 	resp.WallMs = time.Since(start).Milliseconds()
+	if mp := os.Getenv("SIM_MEMPROFILE"); mp != "" {
+		runtime.GC()
+		if f, err := os.Create(mp); err == nil {
+			pprof.WriteHeapProfile(f)
+			f.Close()
+		}
+		if f, err := os.Create(mp + ".goroutines"); err == nil {
+			fmt.Fprintf(f, "goroutines at exit: %d\n", runtime.NumGoroutine())
+			pprof.Lookup("goroutine").WriteTo(f, 1)
+			f.Close()
+		}
+	}
 	out, _ := json.Marshal(resp)
 	if err := os.WriteFile(req.Out, out, 0o644); err != nil {
 		t.Fatal(err)
@@ -410,11 +425,22 @@ func doRuns(t *testing.T, req *Request, resp *Response, start time.Time) {
 			resp.HarnessError = append(resp.HarnessError, fmt.Sprintf("run %d: the scenario could not be set up: %v summary=%s", run, res.Blocked, res.Summary))
 		}
 		if len(res.Violations) > 0 {
+			// the run's verdict: its first violation of the property being checked, else its first
 			v := res.Violations[0]
+			for _, vv := range res.Violations {
+				if req.Property != "" && vv.Property == req.Property {
+					v = vv
+					break
+				}
+			}
 			cl := v.Class
 			if cl == "" {
 				cl = v.Fingerprint
 			}
+			if resp.ClassRuns == nil {
+				resp.ClassRuns = map[string]int{}
+			}
+			resp.ClassRuns[cl]++
 			if !seenFP[cl] {
 				seenFP[cl] = true
 				resp.Violations = append(resp.Violations, violOut(run, res, v))
@@ -501,11 +527,14 @@ func doShrink(t *testing.T, req *Request, resp *Response) {
 			return false
 		}
 		for _, v := range res.Violations {
+			if req.Property != "" && v.Property != req.Property {
+				continue
+			}
 			if v.Fingerprint == req.Target || v.Class == req.Target {
 				last = res
 				return true
 			}
-			break // only the first violation of a run counts
+			break // only the first violation (of the property being checked) of a run counts
 		}
 		return false
 	}
@@ -600,6 +629,15 @@ func doShrink(t *testing.T, req *Request, resp *Response) {
 	r := *req
 	r.Trace = true
 	res, herr := runOnce(t, req.Scenario, replayCfg(&r, S, W))
+	if res != nil {
+		// the verdict of the run: its first violation of the property being checked
+		for i, v := range res.Violations {
+			if req.Property == "" || v.Property == req.Property {
+				res.Violations[0], res.Violations[i] = res.Violations[i], res.Violations[0]
+				break
+			}
+		}
+	}
 	if herr != "" || res == nil || len(res.Violations) == 0 || (res.Violations[0].Fingerprint != req.Target && res.Violations[0].Class != req.Target) {
 		d := herr
 		if res != nil {
